@@ -42,6 +42,9 @@ pub struct HeldBuf {
     pub buf: a10::io::ReadBuf,
     /// Byte vector with the capacity fixed at the pool's buffer size.
     pub model: Vec<u8>,
+    /// Address of the buffer's first byte when it was handed out: the base of
+    /// its slot (0 if it owns no buffer).
+    pub base: usize,
 }
 
 /// What a scenario family looks like.
@@ -451,6 +454,7 @@ impl Engine {
             let r = &k.rings[self.ring_id];
             (r.seen_sq_tail, r.sq_pending() >= r.sq_entries)
         });
+        let must_resolve = self.cq_drained() && self.must_resolve(i) == Some(true);
         let old = kernel::set_cur(id, During::Poll);
         let mut task = self.tasks[i].task.take().unwrap();
         let res = task.poll(&mut cx, &mut produced);
@@ -472,7 +476,8 @@ impl Engine {
                 }
                 Produced::ReadBuf(b) => {
                     let model = b.as_slice().to_vec();
-                    self.bufs.push(HeldBuf { buf: b, model });
+                    let base = b.as_slice().as_ptr() as usize;
+                    self.bufs.push(HeldBuf { buf: b, model, base });
                 }
                 Produced::Signals(s) => self.w.signals.push(Some(Box::new(s))),
             }
@@ -481,6 +486,17 @@ impl Engine {
             Poll::Pending => {
                 trace(&[tag::POLL, self.tasks[i].kind as u32, 0]);
                 ev!("h poll op#{id} -> Pending");
+                if must_resolve {
+                    // C05: the completion was published and its slot given back
+                    // (the queue is drained), yet the operation does not have it.
+                    violation(
+                        "cq.lost",
+                        format!(
+                            "{} (op#{id}) returned Pending although the kernel published its completion and Ring::poll has consumed the whole completion queue: the completion never reached the operation",
+                            self.tasks[i].name
+                        ),
+                    );
+                }
                 let t = &mut self.tasks[i];
                 t.last_pending = true;
                 t.last_item = false;
@@ -534,31 +550,7 @@ impl Engine {
     /// visible to the caller.
     fn script(&self, i: usize) -> (Vec<Out>, bool, bool) {
         let t = &self.tasks[i];
-        let recs = Self::recs(t.id);
-        let mut items = Vec::new();
-        let mut complete = false;
-        let mut last_done = false;
-        for rec in &recs {
-            last_done = rec.done;
-            complete = false;
-            for (ci, (res, flags)) in rec.cqes.iter().enumerate() {
-                if flags & CQE_F_NOTIF != 0 {
-                    // Second step of a zero-copy send: carries no result.
-                    complete = true;
-                    continue;
-                }
-                let final_ = flags & CQE_F_MORE == 0 || rec.zc;
-                if final_ && is_interrupt(*res) {
-                    // Restarted transparently.
-                    continue;
-                }
-                items.push((t.expect)(rec, ci));
-                if flags & CQE_F_MORE == 0 || (rec.zc && rec.done) {
-                    complete = true;
-                }
-            }
-        }
-        (items, complete, last_done)
+        script_of(&Self::recs(t.id), &t.expect)
     }
 
     fn check_restarts(&self, i: usize) {
@@ -636,10 +628,19 @@ impl Engine {
         let t = &self.tasks[i];
         let n = t.matched;
         if let Err(e) = out {
-            if (*e == libc::EINTR || *e == libc::ECANCELED) && items.get(n) != Some(out) {
+            // The interruption itself, as an errno or as the errno-less
+            // `ErrorKind::Interrupted`.
+            let kind_only = *e == KIND_INTERRUPTED
+                && Self::recs(t.id).iter().any(|r| r.done && r.cqes.last().is_some_and(|c| is_interrupt(c.0)));
+            if (*e == libc::EINTR || *e == libc::ECANCELED || kind_only) && items.get(n) != Some(out) {
                 violation(
                     "restart.leaked-interruption",
-                    format!("{} (op#{}) returned {} to the caller", t.name, t.id, errno_name(*e)),
+                    format!(
+                        "{} (op#{}) returned {} to the caller",
+                        t.name,
+                        t.id,
+                        if kind_only { "ErrorKind::Interrupted" } else { errno_name(*e) }
+                    ),
                 );
                 self.tasks[i].matched += 1;
                 return;
@@ -842,11 +843,38 @@ impl Engine {
     /// After `Ring::poll` consumed everything that was posted: every task that
     /// is ready and whose last poll returned Pending must have been woken
     /// through the waker of that poll.
-    fn check_wakeups(&mut self) {
-        let drained = kernel::with(|k| {
+    /// Every completion the kernel posted has been processed by `Ring::poll`.
+    fn cq_drained(&self) -> bool {
+        kernel::with(|k| {
             let r = &k.rings[self.ring_id];
             r.cq_ready() == 0 && r.overflow.is_empty() && r.deferred.is_empty() && !r.cq_mem.dead
-        });
+        })
+    }
+
+    /// With the completion queue drained: does task `i` have a result (or
+    /// the end of its stream) waiting that its next poll must return?
+    /// `None`: no statement (composites, series of single reads, interrupted
+    /// attempts that are restarted instead).
+    fn must_resolve(&self, i: usize) -> Option<bool> {
+        let t = &self.tasks[i];
+        if ops::is_composite(t.kind) || t.kind == Kind::ReceiveSignals || self.unconsumed(t.id) {
+            return None;
+        }
+        let recs = Self::recs(t.id);
+        let (items, complete, last_done) = script_of(&recs, &t.expect);
+        if t.kind.is_iter() {
+            return Some(items.len() > t.matched || (complete && last_done));
+        }
+        let last = recs.last()?;
+        let res = if last.zc { last.cqes.first() } else { last.cqes.last() }.map_or(0, |c| c.0);
+        if !last.done || is_interrupt(res) {
+            return None;
+        }
+        Some(true)
+    }
+
+    fn check_wakeups(&mut self) {
+        let drained = self.cq_drained();
         if !drained {
             stats::inc(C::fault_cq_batch_split);
             return;
@@ -1117,6 +1145,22 @@ impl Engine {
                 "readbuf.model-mismatch",
                 format!("{what} on a buffer of {len} bytes (capacity {cap}): ReadBuf {got:?}, byte vector model {want:?}"),
             );
+        }
+        let hb = &mut self.bufs[i];
+        // The edit must not move the buffer inside (or out of) its slot.
+        let now = hb.buf.as_slice().as_ptr() as usize;
+        let spare = hb.buf.spare_capacity_mut();
+        let spare_end = spare.as_ptr() as usize + spare.len();
+        if now != hb.base || spare_end > hb.base + cap {
+            violation(
+                "readbuf.release-id",
+                format!(
+                    "after {what} the buffer starts {} bytes into its slot and its spare capacity ends {} bytes past the slot",
+                    now.wrapping_sub(hb.base) as isize,
+                    spare_end as isize - (hb.base + cap) as isize
+                ),
+            );
+            hb.base = now;
         }
         let hb = &self.bufs[i];
         if hb.buf.as_slice() != hb.model.as_slice() || hb.buf.len() != hb.model.len() {
@@ -1616,6 +1660,36 @@ impl Engine {
             violation(v.class, v.detail);
         }
     }
+}
+
+/// The flattened script of one task from its kernel-side records: the outputs
+/// it must produce in order, whether the stream is complete, and whether the
+/// last attempt is done.
+pub fn script_of(recs: &[OpRecord], expect: &ops::Expect) -> (Vec<Out>, bool, bool) {
+    let mut items = Vec::new();
+    let mut complete = false;
+    let mut last_done = false;
+    for rec in recs {
+        last_done = rec.done;
+        complete = false;
+        for (ci, (res, flags)) in rec.cqes.iter().enumerate() {
+            if flags & CQE_F_NOTIF != 0 {
+                // Second step of a zero-copy send: carries no result.
+                complete = true;
+                continue;
+            }
+            let final_ = flags & CQE_F_MORE == 0 || rec.zc;
+            if final_ && is_interrupt(*res) {
+                // Restarted transparently.
+                continue;
+            }
+            items.push(expect(rec, ci));
+            if flags & CQE_F_MORE == 0 || (rec.zc && rec.done) {
+                complete = true;
+            }
+        }
+    }
+    (items, complete, last_done)
 }
 
 /// Final accounting once every handle is gone.
